@@ -16,7 +16,12 @@ Definition gev_oracle : callee :=
   COracle (fun args kws w =>
     match field_get "c" kws, field_get "loc" kws, field_get "scale" kws with
     | Some (VNum (Fin c)), Some (VNum (Fin loc)), Some (VNum (Fin sc)) =>
-        Ok (VNum (Fin (loc + sc * gev_ppf c (rng w (cur w)))), World (rng w) (S (cur w)) (olog w) (decs w) (pc w))
+        let x := VNum (Fin (loc + sc * gev_ppf c (rng w (cur w)))) in
+        let w' := World (rng w) (S (cur w)) (olog w) (decs w) (pc w) in
+        match field_get "size" kws with
+        | None | Some VNone => Ok (x, w')
+        | Some (VInt 1) => Ok (VArr [x], w')           (* size=1: a one-element array, as scipy returns *)
+        | Some _ => Stuck "genextreme.rvs: size" end
     | _, _, _ => Stuck "genextreme.rvs: arguments" end).
 Definition mt : list (string * callee) :=
   [("draw_los", CFun src_LOSDistribution_draw_los); ("draw_bool", CFun src_LOSDistribution_draw_bool)].
@@ -29,11 +34,11 @@ Open Scope R_scope.
 (* the lens reads population number 1 of the list, never population 0 *)
 Theorem los_gaussian other m sg rg cu :
   yields Gl 60 (CFun src_LOSDistribution_draw_los) (Some (los_glob "GAUSSIAN")) [VList [other; dict [("mean", num m); ("sigma", num sg)]]] [] rg cu
-    (num (m + sg * rg cu)) (S cu) [].
+    (VArr [num (m + sg * rg cu)]) (S cu) [].      (* size=1: a one-element array *)
 Proof. yields_auto. Qed.
 Theorem los_gev other m sg xi rg cu :
   yields Gl 60 (CFun src_LOSDistribution_draw_los) (Some (los_glob "GEV")) [VList [other; dict [("mean", num m); ("sigma", num sg); ("xi", num xi)]]] [] rg cu
-    (num (m + sg * gev_ppf xi (rg cu))) (S cu) [].
+    (VArr [num (m + sg * gev_ppf xi (rg cu))]) (S cu) [].
 Proof. yields_auto. Qed.
 Theorem los_none_is_zero kl rg cu :
   yields Gl 60 (CFun src_LOSDistribution_draw_los) (Some los_none) [kl] [] rg cu (VInt 0) cu [].
